@@ -131,7 +131,7 @@ class C03(Check):
                 "Pox.C03.flow_from_packet_hit", "Pox.C03.spec_frags_irrelevant", "Pox.C03.flow_from_packet_exact_iff",
                 "Pox.C03.flow_from_packet_exact", "Pox.C03.history_sorted", "Pox.C03.step_preserves_sorted", "Pox.C03.add_position",
                 "Pox.C03.removal_sublist", "Pox.C03.history_exact_first", "Pox.C03.history_lookup", "Pox.C03.history_lookup_wire",
-                "Pox.C03.history_lookup_wire_repaired", "Pox.C03.matches_iff_v", "Pox.C03.extract_ok_v", "Pox.C03.exact_iff_v",
+                "Pox.C03.history_lookup_wire_repaired", "Pox.C03.lookup_stateless", "Pox.C03.history_lookup_sequence_wire", "Pox.C03.matches_iff_v", "Pox.C03.extract_ok_v", "Pox.C03.exact_iff_v",
                 "Pox.C03.subsumes_iff_v", "Pox.C03.flow_from_packet_matches_v", "Pox.C03.subsumes_iff_forall", "Pox.C03.subsumes_iff",
                 "Pox.C03.matches_tos_defect", "Pox.C03.matches_prereq_defect", "Pox.C03.extract_arp_defect", "Pox.C03.flow_from_packet_exact_defect",
                 "Pox.C03.exact_outranks_defect"]
@@ -375,7 +375,20 @@ class C03(Check):
                 e = self.parse(fr["frame"])
                 pm = self.of.ofp_match.from_packet(e, fr["port"], spec_frags=True)
                 codematch.append([1 if te.match.matches_with_wildcards(pm, consider_other_wildcards=False) else 0 for te in ents])
-            return {"order": order, "eff": eff, "exact": exact, "lookups": lookups, "rx": rx if sw else None, "phdrs": phs, "wfs": wfs, "codematch": codematch}
+            fresh = None
+            if case.get("seq"):                 # the same lookups, each on its own fresh copy of the table
+                fresh = []
+                for fr in case["frames"]:
+                    ft2 = self.FlowTable()
+                    copies = []
+                    for i, (prio, w) in enumerate(case["entries"]):
+                        m = self.of.ofp_match(); m.unpack(bytes.fromhex(w), 0, flow_mod=True)
+                        te = self.TableEntry(priority=prio, match=m, actions=[], now=0); te._c03 = i
+                        ft2.add_entry(te)
+                    te = ft2.entry_for_packet(self.parse(fr["frame"]), fr["port"])
+                    fresh.append(None if te is None else te._c03)
+            return {"order": order, "eff": eff, "exact": exact, "lookups": lookups, "rx": rx if sw else None, "phdrs": phs, "wfs": wfs, "codematch": codematch,
+                    "fresh": fresh}
         if k == "selfflow":
             e = self.parse(case["frame"])
             ph, wf = self.phdr_of(e)
@@ -564,7 +577,13 @@ class C03(Check):
                 if obs["rx"] is not None and obs["rx"][fi] != got:
                     return "lookup:frame %d rx_packet used entry %s, entry_for_packet %s" % (fi, obs["rx"][fi], got)
                 v = self._lookup_verdict(flows, got, ph, fr["port"], lambda i: obs["codematch"][fi][i], "frame %d" % fi)
-                if v: return v
+                if v:
+                    # lookup is a function of (table, frame): the same frame on a fresh copy of the table is the reference
+                    if obs.get("fresh") is not None and obs["fresh"][fi] != got and self._lookup_verdict(
+                            flows, obs["fresh"][fi], ph, fr["port"], lambda i: obs["codematch"][fi][i], "") is None:
+                        return "lookup:frame %d (lookup number %d on this table) returned entry %s, on a fresh copy of the table %s why=depends-on-earlier-lookups" % (
+                            fi, fi + 1, got, obs["fresh"][fi])
+                    return v
             return None
         if k == "selfflow":
             if obs["wf"] < 2: return None
@@ -820,6 +839,7 @@ class C03(Check):
         for i in range(6):
             cases.append(self.table_case(rng, frames, n=rng.choice([1, 5, 12, 40]), via_switch=(i % 2 == 0)))
         cases += self.table_witnesses()
+        cases += list(self.lookup_seq_cases(rng))
         for i in range(8):
             cases.append(self.tableops_case(rng, frames, nops=[4, 10, 25, 60][i % 4]))
         for fr in frames:
@@ -913,6 +933,8 @@ class C03(Check):
                 c = self.table_case(rng, pool, n=rng.choice([2, 5, 12, 30]), exact_class=True)
                 yield c
                 yield dict(c, corr_only=True)
+        for _ in range(1 if tier == "quick" else 12):      # randomised again (entry mix, order, exact / catch-all entries)
+            for c in self.lookup_seq_cases(rng, per=2): yield c
         for i in range(150 if tier == "quick" else 2500):
             yield self.tableops_case(rng, pool, nops=rng.choice([3, 8, 20, 60, 90]))
         for c in self.local_and_subsume(rng, pool, 40 if tier == "quick" else 1200): yield c
@@ -953,6 +975,124 @@ class C03(Check):
         if via_switch: c["via_switch"] = True
         if exact_class: c["class"] = "exact"
         return c
+
+    # ---------------------------------------------------------------- sequences of lookups on one table
+    def build_frame(self, d):
+        """frame from a description {src,dst (ints), vlan: None|[id,pcp], l3: ["ip",src,dst,proto,tos,frag,a,b] | ["arp",op,spa,tpa] | ["other",ethertype]};
+        for proto 1 (a,b) = ICMP type/code, else ports; frag: 0 none, 1 first fragment (MF), 2 later fragment (offset 185).  Real packet library."""
+        P, IP, Eth = self.pkt, self.IPAddr, self.EthAddr
+        l3 = d["l3"]
+        if l3[0] == "ip":
+            _, s, t, proto, tos, frag, a, b = l3
+            if proto == 6: q = P.tcp(srcport=a, dstport=b, off=5, win=1); q.payload = b"xy"
+            elif proto == 17: q = P.udp(srcport=a, dstport=b); q.payload = b"abcd"
+            elif proto == 1: q = P.icmp(type=a, code=b); q.payload = b"\0" * 8
+            else: q = struct.pack("!HH", a, b) + b"\0" * 4
+            pay = P.ipv4(srcip=IP(s.to_bytes(4, "big")), dstip=IP(t.to_bytes(4, "big")), protocol=proto, tos=tos,
+                         flags=P.ipv4.MF_FLAG if frag == 1 else 0, frag=185 if frag == 2 else 0)
+            pay.payload = q; typ = 0x0800
+        elif l3[0] == "arp":
+            pay = P.arp(opcode=l3[1], hwsrc=Eth(d["src"].to_bytes(6, "big")), hwdst=Eth(b"\0" * 6),
+                        protosrc=IP(l3[2].to_bytes(4, "big")), protodst=IP(l3[3].to_bytes(4, "big"))); typ = 0x0806
+        else:
+            pay = b"payload-" + bytes([l3[1] & 0xff]); typ = l3[1]
+        if d["vlan"] is not None:
+            v = P.vlan(id=d["vlan"][0], pcp=d["vlan"][1], eth_type=typ); v.payload = pay; pay = v; typ = 0x8100
+        e = P.ethernet(src=Eth(d["src"].to_bytes(6, "big")), dst=Eth(d["dst"].to_bytes(6, "big")), type=typ); e.payload = pay
+        return e.pack().hex()
+
+    SEQ_BASES = {
+        "tcp": {"src": 0x000000000011, "dst": 0x000000000022, "vlan": None, "l3": ["ip", 0x0a000001, 0x0a000002, 6, 0, 0, 4000, 80]},
+        "udp": {"src": 0x000000000011, "dst": 0x000000000022, "vlan": None, "l3": ["ip", 0x0a000001, 0x0a000002, 17, 0xb8, 0, 4000, 5060]},
+        "icmp": {"src": 0x000000000011, "dst": 0x000000000022, "vlan": None, "l3": ["ip", 0x0a000001, 0x0a000002, 1, 0, 0, 8, 0]},
+        "arp": {"src": 0x000000000011, "dst": 0xffffffffffff, "vlan": None, "l3": ["arp", 1, 0x0a000001, 0x0a000002]},
+        "other": {"src": 0x000000000011, "dst": 0x000000000022, "vlan": None, "l3": ["other", 0x88b5]},
+        "vlan_udp": {"src": 0x000000000011, "dst": 0x000000000022, "vlan": [10, 0], "l3": ["ip", 0x0a000001, 0x0a000002, 17, 0, 0, 4000, 5060]},
+        "vlan_arp": {"src": 0x000000000011, "dst": 0xffffffffffff, "vlan": [10, 5], "l3": ["arp", 2, 0x0a000001, 0x0a000002]},
+        "frag_udp": {"src": 0x000000000011, "dst": 0x000000000022, "vlan": None, "l3": ["ip", 0x0a000001, 0x0a000002, 17, 0, 2, 4000, 5060]},
+    }
+
+    def seq_variants(self, d, field, rng):
+        """descriptions that differ from `d` in exactly the extracted field `field` (index into F), [] if the field does not apply to this frame;
+        "frag" = the same datagram as fragment / unfragmented (tp_src and tp_dst become 0)"""
+        out = []
+        def mod(path, val):
+            n = copy.deepcopy(d)
+            if path[0] == "l3": n["l3"][path[1]] = val
+            elif path[0] == "vlan": n["vlan"][path[1]] = val
+            else: n[path[0]] = val
+            out.append(n)
+        l3 = d["l3"]
+        if field == DL_SRC: mod(["src"], d["src"] + 1); mod(["src"], d["src"] ^ 0x010000000000)
+        elif field == DL_DST: mod(["dst"], (d["dst"] + 1) & 0xffffffffffff); mod(["dst"], d["dst"] ^ 0x000000010000)
+        elif field == DL_VLAN:
+            if d["vlan"] is not None:
+                mod(["vlan", 0], d["vlan"][0] + 1)
+                n = copy.deepcopy(d); n["vlan"] = None
+                if d["vlan"][1] == 0: out.append(n)            # untagged: dl_vlan 0xffff, pcp 0 -- only the vlan field differs when pcp was 0
+        elif field == PCP:
+            if d["vlan"] is not None: mod(["vlan", 1], (d["vlan"][1] + 5) % 8); mod(["vlan", 1], (d["vlan"][1] + 1) % 8)
+        elif field == DL_TYPE:
+            if l3[0] == "other": mod(["l3", 1], l3[1] + 1); mod(["l3", 1], 0x9000)
+        elif field == TOS:
+            if l3[0] == "ip": mod(["l3", 4], l3[4] ^ 0xb8); mod(["l3", 4], (l3[4] + 0x20) & 0xfc)      # DSCP changes only: ECN bits are D36's input class
+        elif field == PROTO:
+            if l3[0] == "ip" and l3[5] == 0 and l3[3] in (6, 17): mod(["l3", 3], 23 - l3[3])
+            elif l3[0] == "ip" and l3[5] == 2: mod(["l3", 3], 23 - l3[3]) if l3[3] in (6, 17) else None
+            elif l3[0] == "arp": mod(["l3", 1], 3 - l3[1]); mod(["l3", 1], l3[1] + 2)
+        elif field == NW_SRC:
+            if l3[0] in ("ip", "arp"): i = 1 if l3[0] == "ip" else 2; mod(["l3", i], l3[i] + 1); mod(["l3", i], l3[i] ^ 0x00010000)
+        elif field == NW_DST:
+            if l3[0] in ("ip", "arp"): i = 2 if l3[0] == "ip" else 3; mod(["l3", i], l3[i] + 1); mod(["l3", i], l3[i] ^ 0x01000000)
+        elif field == TP_SRC:
+            if l3[0] == "ip" and l3[5] == 0 and l3[3] in (1, 6, 17): mod(["l3", 6], l3[6] + 1 if l3[3] != 1 else 0)
+        elif field == TP_DST:
+            if l3[0] == "ip" and l3[5] == 0 and l3[3] in (1, 6, 17): mod(["l3", 7], l3[7] + 1 if l3[3] != 1 else 3)
+        elif field == "frag":
+            if l3[0] == "ip" and l3[3] in (6, 17): mod(["l3", 5], 1 if l3[5] != 1 else 0); mod(["l3", 5], 2 if l3[5] != 2 else 0)
+        return [x for x in out if x is not None]
+
+    def only_field_rec(self, h, fields, hi=0):
+        """transmitted match that compares exactly `fields` (plus the prerequisites they need), values from the header tuple h"""
+        need = set(fields)
+        if need & {TOS, PROTO, NW_SRC, NW_DST, TP_SRC, TP_DST}: need.add(DL_TYPE)
+        if need & {TP_SRC, TP_DST}: need.add(PROTO)
+        r = [mkwild([f for f in FLAG_FIELDS if f not in need], 0 if NW_SRC in need else 32, 0 if NW_DST in need else 32, hi)] + list(h)
+        for f in FLAG_FIELDS:
+            if f not in need: r[f] = 0
+        if NW_SRC not in need: r[NW_SRC] = 0
+        if NW_DST not in need: r[NW_DST] = 0
+        return r
+
+    SEQ_FIELDS = [IN_PORT, DL_SRC, DL_DST, DL_VLAN, PCP, DL_TYPE, TOS, PROTO, NW_SRC, NW_DST, TP_SRC, TP_DST, "frag"]
+
+    def lookup_seq_cases(self, rng, bases=None, per=1):
+        """Sequences of lookups on ONE table without any change in between: frames that differ in exactly one extracted field (every one of
+        the 12 match fields, and fragment / non-fragment), looked up in both orders and as A,B,A / A,A,B triples, against entries that
+        discriminate on that very field (one per value, different priorities), with and without a catch-all, sometimes an exact entry.
+        The oracle holds every single lookup to the standard, whatever was looked up before (and compares with a fresh copy of the table)."""
+        for bname in (bases or sorted(self.SEQ_BASES)):
+            d = self.SEQ_BASES[bname]
+            for field in self.SEQ_FIELDS:
+                port = 1 + (len(bname) + self.SEQ_FIELDS.index(field)) % 3
+                if field == IN_PORT: pairs = [((d, port), (d, port % 3 + 1))]
+                else: pairs = [((d, port), (v, port)) for v in self.seq_variants(d, field, rng)[:per + 1]]
+                for (da, pa), (db, pb) in pairs:
+                    fa, fb = self.build_frame(da), self.build_frame(db)
+                    try: (pha, wfa, ha), (phb, wfb, hb) = self.headers_of(fa, pa), self.headers_of(fb, pb)
+                    except Exception: continue
+                    if wfa < 2 or wfb < 2: continue
+                    disc = [TP_SRC, TP_DST] if field == "frag" else [field]
+                    ents = [[200, pack_rec(self.only_field_rec(ha, disc)).hex()], [300, pack_rec(self.only_field_rec(hb, disc)).hex()]]
+                    if rng.random() < 0.6: ents.append([10, pack_rec(self.only_field_rec(ha, [])).hex()])                   # catch-all
+                    if rng.random() < 0.4: ents.append([rng.choice([1, 250]), pack_rec([0] + list(ha)).hex()])              # exact entry of A
+                    if rng.random() < 0.4: ents.insert(0, [rng.choice([5, 250, 400]), pack_rec(self.only_field_rec(hb, disc + [DL_SRC])).hex()])
+                    if rng.random() < 0.5: ents.reverse()
+                    A, B = {"frame": fa, "port": pa}, {"frame": fb, "port": pb}
+                    for order in ([A, B], [B, A], [A, B, A], [B, B, A, B]):
+                        c = {"kind": "table", "entries": ents, "frames": order, "seq": True, "tag": "seq %s %s" % (bname, field if field == "frag" else F[field])}
+                        if rng.random() < 0.15: c["via_switch"] = True
+                        yield c
 
     def tableops_case(self, rng, pool, nops):
         """a history on one FlowTable: adds (clustered priorities, many equal: the insertion position among equals is observable),
